@@ -251,6 +251,26 @@ FifInit.havoc = _fif_havoc
 FO = 'sedfitter.filter_output.filter_output'
 
 
+def writer_state_cases(*names):
+    """Loop-carried state of FitInfoFile writers held in local variables `names`: each has either written nothing
+    yet (_first_meta None) or some records (then _first_meta is the metadata of the first one); the handle has
+    an arbitrary number of frames so far.  Returns the list of alternative havoc functions (2^len(names) cases)."""
+    import itertools
+
+    def make(pattern):
+        def hv(c):
+            for nm, started in zip(names, pattern):
+                w = c.st.env[nm]
+                h = c.attr(w, '_handle')
+                k = Sc(fresh_int('frames_so_far'))
+                c.assume(k >= (4 if started else 0))
+                c.set_attr(h, 'written', k)
+                c.set_attr(h, 'log', (Opaque('earlier frames', nm),))
+                c.set_attr(w, '_first_meta', make_meta(c) if started else None)
+        return hv
+    return [make(p) for p in itertools.product((False, True), repeat=len(names))]
+
+
 def _new_record(c, it):
     """An arbitrary record yielded by the input (at least one fit, at least one fitted point)."""
     M, N = Sc(fresh_int('rec_fits')), Sc(fresh_int('rec_filters'))
@@ -311,7 +331,7 @@ class FilterOutput(Contract):
     name = FO
     properties = ('C18',)
     variants = ('chi/auto', 'cpd/explicit', 'object/no-names')
-    loops = {1: EventLoop('records', _fo_check, item=_new_record)}
+    loops = {1: EventLoop('records', _fo_check, item=_new_record, havoc=writer_state_cases('fout_good', 'fout_bad'))}
 
     def setup(self, c, variant):
         if variant == 'chi/auto':
